@@ -256,7 +256,9 @@ def run_group(ov, group, harnesses, jobs, mem_kb, tier):
     compiled = "Checking harness" in text or os.path.exists(export)
     if not compiled:
         # compile error (harness no longer fits the code) or no harness matched
-        tail = "\n".join([l for l in text.split("\n") if re.search(r"^error|^\s+-->|Failed to match|could not compile", l)][:40])
+        lines = text.split("\n")
+        tail = "\n".join([l + " @ " + (lines[i + 1].strip() if i + 1 < len(lines) else "") for i, l in enumerate(lines)
+                          if re.search(r"^error|Failed to match|could not compile", l)][:12])
         for h in harnesses:
             results[h.fn] = dict(status="inconclusive", reason="build failed: " + tail[:2000], checks=[], covers=[])
         return results, wall, text
